@@ -546,7 +546,18 @@ impl TransportVisitor for VB {
             ($name:expr, $e:expr) => {{
                 co.borrow_mut().spins = 0;
                 let seq_before = hal::with(|h| h.seq);
+                // While the call runs, every heap free is examined: memory still posted to the live
+                // device must not be released (teardown order itself is C09's subject).
+                if $name != "drop" {
+                    crate::alloc_watch::arm(&w.dev);
+                }
                 let r = if dead && $name != "drop" { Err("skipped after an earlier panic".to_string()) } else { crate::util::catch(|| $e) };
+                let freed = if $name != "drop" { crate::alloc_watch::disarm() } else { vec![] };
+                if r.is_ok() && !UNATTRIBUTABLE.with(|u| u.get()) {
+                    for h in freed {
+                        viol(&format!("buffer-freed-while-posted:{}", $name), format!("{}: {}", $name, h));
+                    }
+                }
                 if r.is_err() {
                     dead = true;
                 }
@@ -742,9 +753,20 @@ impl TransportVisitor for VB {
                 let frames: Vec<u8> = (1..=9).collect();
                 lend(&frames);
                 call!("pcm_xfer", s.pcm_xfer(0, &frames));
+                // Two transfers in flight: the device may finish the second first.
                 let tok = call!("pcm_xfer_nb", s.pcm_xfer_nb(0, &[1, 2, 3, 4]));
+                let tok2 = call!("pcm_xfer_nb#2", s.pcm_xfer_nb(0, &[5, 6, 7, 8]));
+                let mut first_pending = false;
                 if let Some(Ok(tok)) = tok {
-                    call!("pcm_xfer_ok", s.pcm_xfer_ok(tok));
+                    // A refused poll (completion of the other transfer is first in the ring, or
+                    // nothing is ready) leaves the transfer outstanding; it is polled again below.
+                    first_pending = !matches!(call!("pcm_xfer_ok", s.pcm_xfer_ok(tok)), Some(Ok(())) | Some(Err(virtio_drivers::Error::IoError)));
+                }
+                if let Some(Ok(tok2)) = tok2 {
+                    call!("pcm_xfer_ok#2", s.pcm_xfer_ok(tok2));
+                }
+                if let (Some(Ok(tok)), true) = (tok, first_pending) {
+                    call!("pcm_xfer_ok#1-again", s.pcm_xfer_ok(tok));
                 }
                 adversary_fill(&co, kind, 1, &[0, 0x11, 0, 0, 1, 0, 0, 0]);
                 call!("latest_notification", s.latest_notification());
